@@ -394,9 +394,44 @@ def add_remove(ctx, rule='C03.R3'):
     ctx.ob(rule, r, 'remove: Swap(i, size), vacated slot sifted down over size-1 and up, pop, size -= 1, index = -1', ok,
            '%s; ops %s, pops %s, size decs %s' % (what_r if nd else 'node lookup changed', ops, pops, dec), why)
   ctx.floor(rule, 'remove paths', n, 1)
+  find_node(ctx, rule)
+
+
+def find_node(ctx, rule):
+  """_FindNodeByEndpoint: a member is found by endpoint equality over the heap array; when the search uses next(..., D) the "not found" value D
+  is exactly what the guard in front of `self._heap[i]` excludes (otherwise an unknown endpoint yields some unrelated member)."""
+  prog = ctx.prog
+  why = ('removing / closing a member starts from the node found for its endpoint: for an endpoint that is not on the heap (unknown, already removed, '
+         'or idle in the aperture) the lookup must say "none", not hand out another member')
   fn = prog.func(H, 'HeapBalancerSink._FindNodeByEndpoint')
   t = U(fn.node).replace(' ', '')
   ctx.ob(rule, fn, 'nodes are found by endpoint equality over the heap array', '.endpoint==%s' % fn.params[1] in t and 'self._heap' in t, '_FindNodeByEndpoint changed', why, nontrivial=False)
+  nx = [st for st in walk_no_nested(fn.node) if isinstance(st, ast.Assign) and len(st.targets) == 1 and isinstance(st.targets[0], ast.Name) and isinstance(st.value, ast.Call)
+        and isinstance(st.value.func, ast.Name) and st.value.func.id == 'next' and len(st.value.args) == 2]
+  if len(nx) != 1:
+    return
+  v = nx[0].targets[0].id
+  try:
+    D = ast.literal_eval(nx[0].value.args[1])
+  except Exception:
+    D = None
+  for ev, ex in enum_paths(ctx, fn):
+    r = [e for e in ev if e.kind == 'ret']
+    if not r or r[-1].node.value is None:
+      continue
+    val = sym_resolve(r[-1].node.value, sym_env(ev, ev.index(r[-1])))
+    subs = [x for x in ast.walk(val) if isinstance(x, ast.Subscript) and U(x.value) == 'self._heap']
+    if not subs:
+      continue
+    fs = FACTS(ev)
+    idx_is_v = any(U(r_.slice) == v for e in ev if e.kind == 'ret' for r_ in ast.walk(e.node) if isinstance(r_, ast.Subscript) and U(r_.value) == 'self._heap')
+    excl = ('%s==%r' % (v, D), False) in fs or ('%s!=%r' % (v, D), True) in fs
+    if D == 0:
+      excl = excl or (v, True) in fs or ('%s>0' % v, True) in fs or ('%s>=1' % v, True) in fs or ('not%s' % v, False) in fs
+    if isinstance(D, int) and D < 0:
+      excl = excl or ('%s<0' % v, False) in fs or ('%s>=0' % v, True) in fs
+    ctx.ob(rule, fn, 'the node handed out is the one the search found: the not-found default is excluded first', idx_is_v and excl and D is not None,
+           'a path returns %s although %s may still be the not-found default %r of the search (facts %s)' % (U(r[-1].node.value), v, D, sorted(c for c, t_ in fs if v in c)), why)
 
 
 def r4(ctx):
@@ -524,6 +559,78 @@ def _resolved_closure(ev, k, i):
   return out
 
 
+def _step_env(ev, s, k):
+  """Symbolic environment for the step ev[s:k] of a walk: names bound inside the step are resolved over the values at the start of the
+  step; a name bound before the step is resolved only when nothing its definition reads has been rebound since (a value computed from
+  the walk variable before the loop is stale in the second iteration and stays an opaque name)."""
+  from ..paths import written_names
+  env = sym_env(ev[s:], k - s)
+  if s > 0:
+    pre = {}
+    bound_at = {}
+    for idx, e in enumerate(ev[:s]):
+      if e.kind == 'stmt' and isinstance(e.node, ast.Assign) and len(e.node.targets) == 1 and isinstance(e.node.targets[0], ast.Name):
+        nm = e.node.targets[0].id
+        pre[nm] = e.node.value
+        bound_at[nm] = idx
+      elif e.kind in ('stmt', 'for_iter', 'with_enter'):
+        for w in written_names(e.node):
+          pre.pop(w, None)
+    for nm, val in pre.items():
+      if nm in env:
+        continue
+      reads = set(x.id for x in ast.walk(val) if isinstance(x, ast.Name))
+      stale = False
+      for idx in range(bound_at[nm] + 1, s):
+        e = ev[idx]
+        if e.kind in ('stmt', 'for_iter', 'with_enter') and set(written_names(e.node)) & (reads | {nm}):
+          stale = True
+      if not stale and all(r not in pre or r == nm for r in reads):
+        env[nm] = val
+  return env
+
+
+def _step_text(ev, s, k, node):
+  return U(sym_resolve(node, _step_env(ev, s, k))).replace(' ', '')
+
+
+def _resolved_closure_step(ev, s, k, i):
+  """like _resolved_closure for the step ev[s:k]: only the branch facts established inside the step count"""
+  from ..util import equiv_facts
+  out = set()
+  for idx in range(s, k):
+    e = ev[idx]
+    if e.kind != 'cond':
+      continue
+    node = sym_resolve(e.node, _step_env(ev, s, idx))
+    for c_, t_ in equiv_facts(node, bool(e.info)):
+      out.add((_norm_idx(c_, i), t_))
+    for c_, t_ in FACTS([e]):
+      out.add((_norm_idx(c_, i), t_))
+  return out
+
+
+def _foreign_comparisons(ctx, f, h, i, allowed):
+  """Heap slots read by the comparisons of each step of a sift walk, other than the allowed ones (normalised over the value the walk
+  variable has at the start of that step)."""
+  bad = set()
+  for ev, ex in enum_paths(ctx, f, body=_lowered_body(f), unroll=2):
+    s0 = 0
+    for idx, e in enumerate(ev):
+      if e.kind == 'stmt' and ((isinstance(e.node, ast.Assign) and any(U(t) == i for t in e.node.targets)) or (isinstance(e.node, ast.AugAssign) and U(e.node.target) == i)):
+        s0 = idx + 1
+        continue
+      if e.kind != 'cond':
+        continue
+      node = sym_resolve(e.node, _step_env(ev, s0, idx))
+      for sub in ast.walk(node):
+        if isinstance(sub, ast.Subscript) and U(sub.value) == h:
+          t = _norm_idx(U(sub.slice), i)
+          if t not in allowed:
+            bad.add(t)
+  return bad
+
+
 def _after_step(ev, k, i):
   """index just after the first rebinding of the walk variable i that follows the swap at event k"""
   for idx in range(k + 1, len(ev)):
@@ -558,22 +665,28 @@ def sift_rules(ctx, why):
     sw = [k for k, e in enumerate(ev) if e.kind == 'call' and call_name(e.node) == 'Heap.Swap']
     if not sw:
       continue
-    k = sw[0]
-    n_sw += 1
-    conds = [(_norm_idx(resolved_text(ev, j_, e.node), i), bool(e.info)) for j_, e in enumerate(ev[:k]) if e.kind == 'cond']
-    closure = _resolved_closure(ev, k, i)
-    args = [_norm_idx(resolved_text(ev, k, a), i) for a in ev[k].node.args]
-    not_root = ('%s!=1' % i, True) in closure or ('%s>1' % i, True) in closure or ('%s==1' % i, False) in closure
-    smaller = ('%s[%s]<%s[P]' % (h, i, h), True) in closure or ('%s[P]>%s[%s]' % (h, h, i), True) in closure
-    swap_ok = args in ([h, i, 'P'], [h, 'P', i])
-    # where the walk continues: the value of i after the swap on this path
-    after = _norm_idx(resolved_text(ev, _after_step(ev, k, i), ast.Name(id=i, ctx=ast.Load())), i)
-    nxt = [e for e in ev[k:] if e.kind == 'call' and call_name(e.node) == 'Heap.FixUp']
-    step_ok = after == 'P' or (nxt and [_norm_idx(resolved_text(ev, ev.index(nxt[0]), a), i) for a in nxt[0].node.args] == [h, 'P'])
-    if not (not_root and smaller and swap_ok and step_ok):
-      okf = False
-      whatf = 'swap path: not-root=%s child<parent=%s swap(i, parent)=%s continues from parent=%s (args %s, next i = %s)' % (not_root, smaller, swap_ok, bool(step_ok), args, after)
+    s0 = 0
+    for k in sw:
+      # every step of the walk is judged over the value the walk variable has when the step starts
+      n_sw += 1
+      closure = _resolved_closure_step(ev, s0, k, i)
+      args = [_norm_idx(_step_text(ev, s0, k, a), i) for a in ev[k].node.args]
+      not_root = ('%s!=1' % i, True) in closure or ('%s>1' % i, True) in closure or ('%s==1' % i, False) in closure
+      smaller = ('%s[%s]<%s[P]' % (h, i, h), True) in closure or ('%s[P]>%s[%s]' % (h, h, i), True) in closure
+      swap_ok = args in ([h, i, 'P'], [h, 'P', i])
+      # where the walk continues: the value of i after the swap on this path
+      nxt_i = _after_step(ev, k, i)
+      after = _norm_idx(_step_text(ev, s0, nxt_i, ast.Name(id=i, ctx=ast.Load())), i)
+      nxt = [e for e in ev[k:] if e.kind == 'call' and call_name(e.node) == 'Heap.FixUp']
+      step_ok = after == 'P' or (nxt and [_norm_idx(_step_text(ev, s0, ev.index(nxt[0]), a), i) for a in nxt[0].node.args] == [h, 'P'])
+      if not (not_root and smaller and swap_ok and step_ok):
+        okf = False
+        whatf = 'swap path: not-root=%s child<parent=%s swap(i, parent)=%s continues from parent=%s (args %s, next i = %s)' % (not_root, smaller, swap_ok, bool(step_ok), args, after)
+      s0 = nxt_i
+  bad = _foreign_comparisons(ctx, fu, h, i, {i, 'P'})
   ctx.ob('C03.R5', fu, 'FixUp: while i != 1 and heap[i] < heap[i//2]: swap, continue from the parent', okf and n_sw >= 1, whatf or 'no swap path found', why)
+  ctx.ob('C03.R5', fu, 'FixUp: every step compares the current position with its own parent', not bad,
+         'a step compares heap slots %s (walk variable %s): an index computed before the walk moved is stale' % (sorted(bad), i), why)
   # ---- FixDown: children bounded by j; the smaller existing child m; swap only if heap[m] < heap[i]; continue from m
   fd = prog.func(H, 'Heap.FixDown')
   h, i, j = fd.params
@@ -585,34 +698,41 @@ def sift_rules(ctx, why):
     sw = [k for k, e in enumerate(ev) if e.kind == 'call' and call_name(e.node) == 'Heap.Swap']
     if not sw:
       continue
-    k = sw[0]
-    n_sw += 1
-    closure = _resolved_closure(ev, k, i)
-    def F(text, truth=True):
-      return (text, truth) in closure
-    args = [_norm_idx(resolved_text(ev, k, a), i) for a in ev[k].node.args]
-    m = [a for a in args[1:] if a != i]
-    m = m[0] if len(m) == 1 else None
-    has_child = F('%s<L' % j, False) or F('%s>=L' % j) or F('L<=%s' % j) or F('L>%s' % j, False)
-    only_left = F('%s==L' % j) or F('L==%s' % j)
-    left_smaller = F('%s[L]<%s[R]' % (h, h)) or F('%s[R]>%s[L]' % (h, h))
-    not_left_smaller = F('%s[L]<%s[R]' % (h, h), False) or F('%s[R]>%s[L]' % (h, h), False) or F('%s[L]>=%s[R]' % (h, h)) or F('%s[R]<=%s[L]' % (h, h))
-    two_children = F('%s==L' % j, False) or F('L==%s' % j, False) or F('%s!=L' % j) or F('%s>L' % j) or F('%s>=R' % j)
-    if m == 'L':
-      choice_ok = only_left or left_smaller
-    elif m == 'R':
-      choice_ok = two_children and not_left_smaller
-    else:
-      choice_ok = False
-    child_smaller = m is not None and (F('%s[%s]<%s[%s]' % (h, m, h, i)) or F('%s[%s]>%s[%s]' % (h, i, h, m)))
-    swap_ok = m is not None and args[0] == h and i in args[1:]
-    after = _norm_idx(resolved_text(ev, _after_step(ev, k, i), ast.Name(id=i, ctx=ast.Load())), i)
-    nxt = [e for e in ev[k:] if e.kind == 'call' and call_name(e.node) == 'Heap.FixDown']
-    step_ok = after == m or (nxt and [_norm_idx(resolved_text(ev, ev.index(nxt[0]), a), i) for a in nxt[0].node.args] == [h, m, j])
-    kinds.add(m)
-    if not (has_child and choice_ok and child_smaller and swap_ok and step_ok):
-      okd = False
-      whatd = 'swap path with child %s: children exist=%s choice justified=%s child<node=%s swap(i, child)=%s continues from child=%s' % (m, has_child, choice_ok, child_smaller, swap_ok, bool(step_ok))
+    s0 = 0
+    for k in sw:
+      n_sw += 1
+      closure = _resolved_closure_step(ev, s0, k, i)
+
+      def F(text, truth=True):
+        return (text, truth) in closure
+      args = [_norm_idx(_step_text(ev, s0, k, a), i) for a in ev[k].node.args]
+      m = [a for a in args[1:] if a != i]
+      m = m[0] if len(m) == 1 else None
+      has_child = F('%s<L' % j, False) or F('%s>=L' % j) or F('L<=%s' % j) or F('L>%s' % j, False)
+      only_left = F('%s==L' % j) or F('L==%s' % j)
+      left_smaller = F('%s[L]<%s[R]' % (h, h)) or F('%s[R]>%s[L]' % (h, h))
+      not_left_smaller = F('%s[L]<%s[R]' % (h, h), False) or F('%s[R]>%s[L]' % (h, h), False) or F('%s[L]>=%s[R]' % (h, h)) or F('%s[R]<=%s[L]' % (h, h))
+      two_children = F('%s==L' % j, False) or F('L==%s' % j, False) or F('%s!=L' % j) or F('%s>L' % j) or F('%s>=R' % j)
+      if m == 'L':
+        choice_ok = only_left or left_smaller
+      elif m == 'R':
+        choice_ok = two_children and not_left_smaller
+      else:
+        choice_ok = False
+      child_smaller = m is not None and (F('%s[%s]<%s[%s]' % (h, m, h, i)) or F('%s[%s]>%s[%s]' % (h, i, h, m)))
+      swap_ok = m is not None and args[0] == h and i in args[1:]
+      nxt_i = _after_step(ev, k, i)
+      after = _norm_idx(_step_text(ev, s0, nxt_i, ast.Name(id=i, ctx=ast.Load())), i)
+      nxt = [e for e in ev[k:] if e.kind == 'call' and call_name(e.node) == 'Heap.FixDown']
+      step_ok = after == m or (nxt and [_norm_idx(_step_text(ev, s0, ev.index(nxt[0]), a), i) for a in nxt[0].node.args] == [h, m, j])
+      kinds.add(m)
+      if not (has_child and choice_ok and child_smaller and swap_ok and step_ok):
+        okd = False
+        whatd = 'swap path with child %s: children exist=%s choice justified=%s child<node=%s swap(i, child)=%s continues from child=%s' % (m, has_child, choice_ok, child_smaller, swap_ok, bool(step_ok))
+      s0 = nxt_i
+  bad = _foreign_comparisons(ctx, fd, h, i, {i, 'L', 'R'})
+  ctx.ob('C03.R5', fd, 'FixDown: every step compares the current position with its own children', not bad,
+         'a step compares heap slots %s (walk variable %s): an index computed before the walk moved is stale' % (sorted(bad), i), why)
   ctx.ob('C03.R5', fd, 'FixDown: stop without children, pick the smaller existing child bounded by j, swap if child < node, continue from it',
          okd and kinds == {'L', 'R'}, whatd or 'swap paths found for children %s (need both)' % sorted(k_ for k_ in kinds if k_), why)
 
